@@ -488,6 +488,14 @@ def {}():
 
     all_upblks = top.get_all_update_blocks()
 
+    # The blocks that call method v or a method declared equivalent to it
+    def _blks_calling( v ):
+      blks = set()
+      for z in ( equiv[v] if v in equiv else (v,) ):
+        if z in method_blks:
+          blks |= method_blks[z]
+      return blks
+
     for method, assoc_blks in method_blks.items():
       visited = {  (method, 0)  }
       Q = deque( [ (method, 0) ] ) # -1: pred, 0: don't know, 1: succ
@@ -519,14 +527,14 @@ def {}():
                     top._dag.all_constraints.add( (v, blk) )
 
             else:
-              if v in method_blks:
+              v_blks = _blks_calling( v )
+              if v_blks:
                 # TODO Now I'm leaving incomplete dependency chain because I didn't close the circuit loop.
                 # E.g. I do port.wr() somewhere in __main__ to write to a port.
 
                 # Find total constraint (vb < blk) by vb=method_v < method_u=blk
                 # INVALID if we have explicit constraint (blk < method_v) or (method_u < vb)
 
-                v_blks = method_blks[ v ]
                 for vb in v_blks:
                   if vb not in succ[u]:
                     for blk in assoc_blks:
@@ -557,7 +565,8 @@ def {}():
                     top._dag.all_constraints.add( (blk, v) )
 
             else:
-              if v in method_blks:
+              v_blks = _blks_calling( v )
+              if v_blks:
                 # assert v in method_blks, "Incomplete elaboration, something is wrong! %s" % hex(v)
                 # TODO Now I'm leaving incomplete dependency chain because I didn't close the circuit loop.
                 # E.g. I do port.wr() somewhere in __main__ to write to a port.
@@ -565,7 +574,6 @@ def {}():
                 # Find total constraint (blk < vb) by blk=method_u < method_v=vb
                 # INVALID if we have explicit constraint (vb < method_u) or (method_v < blk)
 
-                v_blks = method_blks[ v ]
                 for vb in v_blks:
                   if not vb in pred[u]:
                     for blk in assoc_blks:
